@@ -202,7 +202,9 @@ func c13Prop(k *verifkit.Kit) func(c c13Case) error {
 
 func c13GenIP(t *rapid.T) system.IP {
 	nets := []string{"2001:db8:1:", "2001:db8:2:", "2001:db8:0:", "fd00:1:0:", "fd00:ffff:0:", "fe80:0:0:", "2a00:1:2:"}
-	hosts := []string{":1", ":2", ":ffff", "200:ff:fe00:1", ":"}
+	// interface identifiers across the whole 64-bit range (privacy and stable-privacy identifiers are uniformly
+	// distributed; half of them have the top bit set)
+	hosts := []string{":1", ":2", ":ffff", "200:ff:fe00:1", ":", "8000:0:0:1", "7fff:ffff:ffff:ffff", "ffff:ffff:ffff:fffe", "c000:0:0:2"}
 	kind := rapid.IntRange(0, 19).Draw(t, "kind")
 	var pfx netip.Prefix
 	switch {
